@@ -48,6 +48,7 @@ use super::graph::{Vertex as GraphVertexTrait, Edge as GraphEdgeTrait}; // index
 //@ include units/C15/cfg_import.rs
 //@ include units/C15/cfg_edit.rs
 //@ include units/C15/cfg_merge.rs
+//@ include units/C15/cfg_merge_traces.rs
 //@ include units/C15/cfg_budget.rs
 //@ include units/C15/cfg_walks.rs
 //@ include units/C15/cfg_client.rs
